@@ -575,6 +575,8 @@ class DBusObject :
         r = {}
 
         def addp(p):
+            if p.pname in r:
+                return  # a subclass takes precedence over its bases
             if p.iprop.access != 'write':
                 v = getattr(self, p.attr_name)
                 if p.iprop.sig in marshal.variantClassMap:
@@ -588,7 +590,6 @@ class DBusObject :
                 if ifc:
                     for p in ifc.properties.values():
                         addp(p)
-                    break
 
         else:
             for cache in self._iterIFaceCaches():
